@@ -48,7 +48,7 @@ def drivers(tier):
             dict(max_states=250000, time_budget=240))
     else:
         d['stray-mark-clear'] = (WorldDriver(
-            'stray-mark-clear', own='Q', ids=(1, 2, 3), explicit_ids=(2,),
+            'stray-mark-clear', own='Q', ids=(1, 2), explicit_ids=(2,),
             max_autos=2, bogus_delete=True, stray_marks=True),
             dict(max_states=1000000, time_budget=900))
         d['callback-recreates'] = (WorldDriver(
